@@ -214,6 +214,9 @@ func c02() []*Ob {
 					}
 				}
 			}},
+		{Prop: "C02", ID: "C02.6", Engine: "PROV+SHAPE", Floor: 3,
+			Desc:  "wildcard matching used by every search leaf: middle fragments are searched strictly between prefix and suffix and the KMP fallback is iterated (shared with C13.5; a break returns documents that do not match, or under NOT hides documents that do)",
+			Check: func(c *Ctx) { matcherShape(c) }},
 		{Prop: "C02", ID: "C02.5", Engine: "DOM", Floor: 2,
 			Desc: "no repeated LID in a posting list: in frac.mergeSorted every element taken from the freshly queued list (which repeats a LID when a document carries the token twice) is appended only after the comparison with the previously appended value",
 			Check: func(c *Ctx) {
